@@ -83,7 +83,7 @@ def main():
             prop = re.match(r'(C\d+)', sid).group(1)
 
             def cell(pid):
-                o = res[pid]['outcome_per_seed']
+                o = res.get(pid, {}).get('outcome_per_seed', {})
                 return '%s:%s' % (pid, ''.join('k' if v == 'killed' else ('s' if v == 'survived' else '?') for v in o.values()) or '-')
             f.write('| %s | %s | %s | %s |\n' % (sid, title.replace('|', '/')[:110], cell(prop), ' '.join(cell(p) for p in REL[prop] if p != prop)))
     print('written notes/killmatrix/seeded.md')
